@@ -1453,6 +1453,22 @@ class Interp:
         if isinstance(base, Opaque):
             return base
         if isinstance(idx, Opaque) or (isinstance(idx, tuple) and any(isinstance(i, Opaque) for i in idx)):
+            if isinstance(base, np.ndarray) and base.dtype == object:
+                # data-dependent selection from a known array: the result has a known shape but unknown content -> havoc
+                probe = tuple(0 if isinstance(i, Opaque) else i for i in idx) if isinstance(idx, tuple) else 0
+                try:
+                    shp = np.shape(base[self.concrete_index(probe, n)])
+                except Exception:
+                    return self.opaque("subscript with a data-dependent (opaque) index", n)
+                k = next(self.fresh)
+                if shp == ():
+                    v = alg.sym(f"havoc{k}")
+                else:
+                    v = np.empty(shp, dtype=object)
+                    for j, i in enumerate(np.ndindex(*shp)):
+                        v[i] = alg.sym(f"havoc{k}[{j}]")
+                self.havocs.append((k, v if not isinstance(v, np.ndarray) else v.copy(), self.loc(n) if n is not None else ""))
+                return v
             return self.opaque("subscript with a data-dependent (opaque) index", n)
         if isinstance(idx, SymIdx) and isinstance(base, (np.ndarray, SymArr)):
             return SymArr("take", (base if isinstance(base, SymArr) else base, idx))
